@@ -226,7 +226,12 @@ func CheckC02(c Case, p *prepared) (fails []Failure, skipped bool) {
 		return []Failure{{Prop: "C02", Clause: "second_print_error", Detail: err.Error()}}, false
 	}
 	if out1 != out2 {
-		return []Failure{{Prop: "C02", Clause: "idempotent", Detail: trunc(fmt.Sprintf("1st=%q 2nd=%q", trunc(out1, 300), trunc(out2, 300)), 700), Class: classC02(c, p, out1, out2)}}, false
+		// failure signature: does the second output still denote the same tree and comments (layout only)?
+		sameTree := false
+		if f3, err := Parse(out2, c.In.Lang, true); err == nil {
+			sameTree = Shape(f3, c.Opt.Minify) == Shape(f2, c.Opt.Minify) && eqStrs(Comments(f3), Comments(f2))
+		}
+		return []Failure{{Prop: "C02", Clause: "idempotent", Detail: trunc(fmt.Sprintf("1st=%q 2nd=%q", trunc(out1, 300), trunc(out2, 300)), 700), Class: classC02(c, p, out1, out2, sameTree)}}, false
 	}
 	return nil, false
 }
@@ -254,7 +259,7 @@ func commentsInText(out string, coms []string) (bool, string) {
 		want := "#" + c
 		found := false
 		for ; li < len(lines); li++ {
-			l := lines[li]
+			l := strings.TrimRightFunc(lines[li], unicode.IsSpace) // "trailing whitespace aside"
 			if strings.HasSuffix(l, want) || strings.Contains(l, want+"`") {
 				found = true
 				break
